@@ -333,6 +333,14 @@ func (x *Exec) opAllocate(st *Step) { //nolint:cyclop,gocyclo,maintidx
 	case st.TxFrom > 0:
 		m.TxID = x.client(st.TxFrom - 1).LastTx
 		x.St.inc("txid-reused-across-clients")
+	case st.TxFrom == -1:
+		// the all-zero transaction id: unusual, legal, and what a zero-valued message carries
+		x.St.inc("txid-all-zero")
+	case st.TxFrom == -2:
+		for i := range m.TxID {
+			m.TxID[i] = 0xFF
+		}
+		x.St.inc("txid-all-ones")
 	default:
 		m.TxID = c.nextTx()
 	}
